@@ -22,6 +22,7 @@
 #include <sys/prctl.h>
 #include <sys/socket.h>
 #include <sys/stat.h>
+#include <pthread.h>
 #include <sys/resource.h>
 #include <sys/syscall.h>
 #include <sys/types.h>
@@ -344,6 +345,9 @@ static void write_cfg(const char *hex) {
     free(s); strcpy(verif_cfgpath, p);
 }
 
+static long onthread_kb = 0;
+struct thr_call { char **tok; int nt; };
+static void *thr_call_main(void *a) { struct thr_call *tc = a; do_call(tc->tok, tc->nt); return NULL; }
 static void handler_dummy(int s) { (void)s; }
 /* before privileges are dropped: the work directory and what is in it stay usable for the new identity (the harness keeps rewriting snoopy.ini) */
 static void open_up_workdir(void) {
@@ -406,6 +410,10 @@ int main(int argc, char **argv) {
             char *val = mkstr(nt > 1 ? tok[1] : "h"); char *dst = !strcmp(tok[0], "defformat") ? verif_def_format : !strcmp(tok[0], "defchain") ? verif_def_chain : !strcmp(tok[0], "defoutput") ? verif_def_output : !strcmp(tok[0], "defoutarg") ? verif_def_output_arg : verif_def_ident;
             size_t cap = !strcmp(tok[0], "defformat") ? 65536 : !strcmp(tok[0], "defoutput") ? 256 : 8192; strncpy(dst, val, cap - 1); dst[cap - 1] = 0; free(val); }
         else if (!strcmp(tok[0], "wantdigest")) want_digest = atoi(tok[1]);
+        else if (!strcmp(tok[0], "onthread")) onthread_kb = atol(tok[1]);      /* later calls are made by a fresh thread with a stack of that many KiB */
+        else if ((!strcmp(tok[0], "call") || !strcmp(tok[0], "vcall")) && onthread_kb > 0) {
+            pthread_attr_t at; pthread_attr_init(&at); pthread_attr_setstacksize(&at, (size_t)onthread_kb * 1024); pthread_t th; struct thr_call tc = { tok, nt };
+            if (pthread_create(&th, &at, thr_call_main, &tc)) { perror("pthread_create"); return 3; } pthread_join(th, NULL); pthread_attr_destroy(&at); }
         else if (!strcmp(tok[0], "call") || !strcmp(tok[0], "vcall")) do_call(tok, nt);
         else if (!strcmp(tok[0], "syms")) load_syms(tok[1]);
         else if (!strcmp(tok[0], "digest")) digest(nt > 1 ? tok[1] : "");
